@@ -261,6 +261,37 @@ def c17(res, tier, seed):
             else:
                 res.cov["traces_validated_against_impl"] += 1
     res.cov["parts"]["cli_runs_on_damaged_files"] = ncli
+    # what a save leaves behind when ONE of its writes fails (an interrupted write, space that is freed again): the call reports the
+    # failure and the leftover is refused by the loader - it must not look like a complete file
+    exe2 = yv.driver("asan")
+    lines2 = ["init"]
+    lplan = []
+    for name, src in CORPUS[: (3 if tier == "quick" else 7)]:
+        f = parse_image(images[name])
+        nwrites = 2 + f["nb"] + f["nrel"] + 1
+        ks = sorted(set(list(range(1, min(nwrites, 6))) + [nwrites - 2, nwrites - 1, nwrites] + [r.randint(1, nwrites) for _ in range(25 if tier == "quick" else 150)]))
+        lines2 += ["note " + name, "compiler 0"] + EXT + ["add 0 - " + yv.hx(src.encode()), "getrules 0 0", "cdestroy 0"]
+        for k in ks:
+            if k < 1: continue
+            lines2 += ["rmfile %s/left.yarc" % wd, "savestream 0 %s/left.yarc 0 %d" % (wd, k), "load 1 %s/left.yarc" % wd, "rdestroy 1"]
+            lplan.append((name, k))
+        lines2 += ["rdestroy 0"]
+    lines2.append("finalize")
+    run2 = yv.run_script(exe2, lines2, wd, name="c17_leftover", hang=120, timeout=1200)
+    if not run2.complete:
+        res.violation("leftovers of saves with one failed write: %s" % yv.crash_summary(run2), yv.save_replay("C17", "leftover_crash", {"crash": yv.crash_summary(run2), "script": run2.script_path}))
+    saves = [e for e in run2.events if e["e"] == "Save"]; loads = [e for e in run2.events if e["e"] == "Load"]
+    lrecs, lown = [], []
+    for (name, k), sv, ld in zip(lplan, saves, loads):
+        if sv["ret"] == 0: continue          # the ordinal lies beyond the writes of this save
+        lrecs.append({"kind": "leftover", "save": sv["ret"], "load": ld["ret"]})
+        lown.append((name, k, sv["ret"], ld["ret"])); res.count(1, ("leftover", name, k))
+    bad2, known2, states2 = func.tlc_judge2(lrecs, wd, "c17_leftover")
+    res.cov["states"] += states2; res.cov["transitions"] += states2
+    res.cov["traces_validated_against_impl"] += len(lrecs) - len(bad2)
+    res.cov["parts"]["leftovers_of_saves_with_one_failed_write"] = len(lrecs)
+    for b_ in bad2[:10]:
+        res.violation("corpus entry %s, write %d of the save fails once: save returned %s, loading the leftover returned %s" % lown[b_], yv.save_replay("C17", "leftover_%s_%d" % (lown[b_][0], lown[b_][1]), {"case": lown[b_]}))
     res.sample({"file": "text.yarc", "abstract": parse_image(images["text"]), "len": len(images["text"])})
     res.level = "fault_enumeration"
     res.cov["exhaustive"] = tier != "quick"
